@@ -110,9 +110,19 @@ Proof. pose proof objectRational_mono as HC. intros. unfold equals. mono. Qed.
 Lemma ToStringMeta_mono : forall v, vle (ToStringMeta ml1 v) (ToStringMeta ml2 v).
 Proof. pose proof Call_mono as HC. intros. unfold ToStringMeta. mono. Qed.
 
+Lemma threadRun_mono : forall t me w, vle (threadRun ml1 t me w) (threadRun ml2 t me w).
+Proof.
+  intros t me w s. unfold threadRun.
+  destruct (Hml None s) as [E|E]; rewrite E; [left; reflexivity|apply rle_refl].
+Qed.
+
+Lemma coResume_mono : vle (coResume ml1) (coResume ml2).
+Proof. pose proof threadRun_mono as HT. unfold coResume. mono. Qed.
+
 Lemma gfunction_mono : forall b, vle (gfunction ml1 b) (gfunction ml2 b).
 Proof.
   pose proof Call_mono as HC. pose proof PCall_mono as HP. pose proof ToStringMeta_mono as HT.
+  pose proof coResume_mono as HR.
   intros. unfold gfunction. mono.
 Qed.
 
